@@ -24,7 +24,17 @@ func main() {
 	only := flag.String("only", "", "restrict verdict lines to obligations whose rule/construct contains this string (replay)")
 	list := flag.Bool("list", false, "list registered properties")
 	dump := flag.String("symx", "", "debug: print the symbolic rendering of pkgsuffix:recv:func (e.g. internal/history:SearchHistory:AddEntry)")
+	mo := flag.Bool("maporder", false, "debug: classify all map range loops")
 	flag.Parse()
+	if *mo {
+		p, err := load.Load(*repo, "linux", "amd64")
+		if err != nil {
+			fmt.Println(err)
+			os.Exit(2)
+		}
+		rules.DumpMapOrder(p)
+		return
+	}
 	if *dump != "" {
 		p, err := load.Load(*repo, "linux", "amd64")
 		if err != nil {
